@@ -9,9 +9,12 @@
 EXTENDS Parser, Json, IOUtils
 
 Rec == ndJsonDeserialize(IOEnv.CORPUS)
+CONSTANT MaxChars        \* texts longer than this are left to the thorough tier (the recogniser model is slow on long texts)
 VARIABLE i
-Init == i \in 1..Len(Rec)
-Next == UNCHANGED i
-ParserTotal == LET v == Verdict(Rec[i].text) IN v.ok \/ v.line >= 1
-Emit == PrintT(<<"R", ToJson([fam |-> "verdict", file |-> Rec[i].file, text |-> Rec[i].text, v |-> Verdict(Rec[i].text)])>>)
+Init == i \in -16..-1                            \* sixteen cheap initial states (shards); the texts of a shard are its successors
+Next == i < 0 /\ i' \in { k \in 1..Len(Rec) : Len(Rec[k].text) <= MaxChars /\ k % 16 = -i - 1 }
+(* the verdict is computed once per text: it is total, and it is printed *)
+Emit == i < 0 \/ LET v == Verdict(Rec[i].text) IN
+                  /\ (v.ok \/ v.line >= 1)
+                  /\ PrintT(<<"R", ToJson([fam |-> "verdict", file |-> Rec[i].file, text |-> Rec[i].text, v |-> v])>>)
 =============================================================================
